@@ -85,7 +85,9 @@ impl Conc {
         let other = Ident { name: names_b[r.below(5) as usize].into(), id: rand_uuid(r) };
         let cookie = Ident { name: names_c[r.below(5) as usize].into(), id: rand_uuid(r) };
         let nv = 1 + r.below(3) as usize;
-        let vouched_props = (0..nv).map(|k| prop(r, &format!("textures{k}"))).collect();
+        // (a profile may carry two properties of the same name, e.g. a signed one and an unsigned override: every third profile with 2+ does)
+        let same_name = r.below(3) == 0;
+        let vouched_props = (0..nv).map(|k| prop(r, &if same_name { "textures".to_string() } else { format!("textures{k}") })).collect();
         let nc = 1 + r.below(2) as usize;
         let cookie_props = (0..nc).map(|k| prop(r, &format!("ck{k}"))).collect();
         let form = r.below(4);
@@ -148,7 +150,8 @@ impl Conc {
             cookie_props,
             client_addr,
             other_addr,
-            hs_host: ["play.example.org", "h", "mc.example.net"][r.below(3) as usize].to_string(),
+            // (also a fully qualified name with its trailing dot and the host as a modded client sends it, with a NUL-separated marker)
+            hs_host: ["play.example.org", "h", "mc.example.net", "mc.example.org.", "play.example.org\0FML3\0"][r.below(5) as usize].to_string(),
             hs_port: [25565u16, 1, 65535][r.below(3) as usize],
             protocol: [770, 767, 0][r.below(3) as usize],
             targets,
@@ -161,7 +164,8 @@ impl Conc {
                 version: ServerVersion { name: "V".into(), protocol: 770 },
                 players: Some(ServerPlayers { online: 1, max: 20, sample: None }),
                 description: None,
-                favicon: None,
+                // every fourth server has an icon: the Status Response is then a frame of about 20 KB (a three-byte length prefix)
+                favicon: if r.below(4) == 0 { Some(format!("data:image/png;base64,{}", "iVBORw0KGgo".repeat(1800))) } else { None },
                 enforces_secure_chat: Some(true),
             },
             loc_tables,
@@ -600,7 +604,7 @@ impl Client {
             }
             "otherSecret" => {
                 let mut s2 = secret.clone();
-                match v % 4 {
+                match v % 6 {
                     // note: appending or dropping a zero byte gives an equivalent HMAC key (zero padding), so avoid that
                     0 => s2.push(1),
                     1 => {
@@ -611,9 +615,12 @@ impl Client {
                         }
                     }
                     2 => s2[0] ^= 1,
+                    // the configured secret with a line break behind it / a blank in front of it is ANOTHER secret
+                    4 => s2.push(b'\n'),
+                    5 => s2.insert(0, b' '),
                     _ => s2 = b"completely different".to_vec(),
                 }
-                self.var_note = format!("otherSecret:{}", v % 4);
+                self.var_note = format!("otherSecret:{}", v % 6);
                 Some(ref_sign(&good_body, &s2))
             }
             "otherIp" => {
@@ -1566,7 +1573,7 @@ fn fanout_of(tr: &[Value], full: bool) -> u64 {
                     "short" => if full { 31 } else { 4 },
                     "tagFlip" => if full { 256 } else { 6 },
                     "bodyFlip" => if full { 1600 } else { 6 },
-                    "otherSecret" => 4,
+                    "otherSecret" => 6,
                     "otherIp" => 3,
                     "expired" => 3,
                     "fresh" | "justInside" | "otherPort" | "jar" => 3,
